@@ -89,10 +89,9 @@ pub fn repair_once<R: Read>(par: &Par, input: R, unauth: bool, orig: &HashMap<St
     let par2 = par.clone();
     let r = guarded(move || -> Result<Value, String> {
         let mut cfg = archive::reader_config(&par2);
+        // the authenticated mode is the DEFAULT of the reader configuration (C04 speaks of the default): no setter call
         if unauth {
             cfg.failsafe_return_data_even_unauthenticated();
-        } else {
-            cfg.failsafe_return_only_authenticated_data();
         }
         let mut fs = match ArchiveFailSafeReader::from_config(input, cfg) {
             Ok(f) => f,
